@@ -22,10 +22,21 @@ class MeiosisLog:
             if getattr(orig, "__wrapped_orig__", None) is not None:
                 continue
 
-            def on_call(a, k, r, _n=name):
-                geno, sel, xoprob = a[0], a[1], a[2]
-                self.events.append((geno, numpy.array(sel, copy=True), numpy.array(xoprob, copy=True), r))
-            self._undo += hooks.rebind(orig, hooks.recording(orig, name, on_call))
+            def make(orig_, name_):
+                import functools
+
+                @functools.wraps(orig_)
+                def w(geno, sel, xoprob, rng, *a, **k):
+                    # snapshot the inputs at call entry: a protocol that re-uses the parental buffer for its output would
+                    # otherwise make the log show the *overwritten* parents
+                    g0 = numpy.array(geno, copy=True)
+                    r = orig_(geno, sel, xoprob, rng, *a, **k)
+                    hooks.COUNTS[name_] += 1
+                    self.events.append((g0, numpy.array(sel, copy=True), numpy.array(xoprob, copy=True), numpy.array(r, copy=True)))
+                    return r
+                w.__wrapped_orig__ = orig_
+                return w
+            self._undo += hooks.rebind(orig, make(orig, name))
         return self
 
     def clear(self):
